@@ -302,8 +302,18 @@ func (s *Server) referrerAdd(repo store.Repo, subject digest.Digest, desc types.
 			}
 		}()
 	}
-	// add descriptor to index and push into blob store
-	refResp.AddDesc(desc)
+	// add descriptor to the response and push into blob store; the response is a list keyed by digest: the annotations
+	// pulled up from the manifest may include org.opencontainers.image.ref.name, which must not be read as a tag
+	listed := false
+	for _, d := range refResp.Manifests {
+		if d.Digest == desc.Digest {
+			listed = true
+			break
+		}
+	}
+	if !listed {
+		refResp.Manifests = append(refResp.Manifests, desc)
+	}
 	iRaw, err := json.Marshal(refResp)
 	if err != nil {
 		return err
@@ -371,8 +381,8 @@ func (s *Server) referrerDelete(repo store.Repo, subject digest.Digest, desc typ
 	if err != nil {
 		return err
 	}
-	// remove descriptor from response
-	refResp.RmDesc(desc)
+	// remove descriptor from response, by digest only (see referrerAdd)
+	refResp.RmDesc(types.Descriptor{Digest: desc.Digest})
 	// push response back to blob store with a new digest
 	refRespRaw, err = json.Marshal(refResp)
 	if err != nil {
